@@ -164,6 +164,11 @@ type Checker struct {
 	Res   *term.Resolver
 	Subst []string // when checking a helper: caller-side terms of the helper's parameters
 	Depth int      // helper inlining depth
+
+	// MustRespond mode
+	through *ssa.BasicBlock
+	avoidB  map[*ssa.BasicBlock]bool
+	targets map[*ssa.BasicBlock]bool
 }
 
 // MaxHelperDepth bounds helper summarisation (quick 2 / thorough 4, set by the driver).
@@ -584,6 +589,22 @@ func (c *Checker) MustAvoid(target *ssa.BasicBlock, atoms []Atom) (bool, []strin
 	return false, c.RenderPath(path)
 }
 
+// Obligation: after passing through a trigger block, every feasible path to a target passes a response block
+// (or an edge on which a response atom holds). Flags and repeated tests are correlated as in MustPass.
+// Returns ok, or a witness path from the entry through the trigger to the target that misses every response.
+func (c *Checker) MustRespond(trigger *ssa.BasicBlock, targets map[*ssa.BasicBlock]bool, respBlocks map[*ssa.BasicBlock]bool, respAtoms []Atom) (bool, []string) {
+	c.through, c.avoidB, c.targets = trigger, respBlocks, targets
+	defer func() { c.through, c.avoidB, c.targets = nil, nil, nil }()
+	ok, path, bound := c.searchMode(nil, respAtoms, false)
+	if ok {
+		return true, nil
+	}
+	if bound {
+		return false, []string{StateBound}
+	}
+	return false, c.RenderPath(path)
+}
+
 func (c *Checker) searchMode(target *ssa.BasicBlock, atoms []Atom, avoid bool) (bool, []*ssa.BasicBlock, bool) {
 	cut := c.directCut(atoms)
 	// avoid mode: "within one iteration of the loop that holds the target"
@@ -626,6 +647,7 @@ func (c *Checker) searchMode(target *ssa.BasicBlock, atoms []Atom, avoid bool) (
 		nec  map[string]string // term -> "|c1|c2|" constants it differs from
 		prev *node
 		bad  bool // avoid mode: the path has traversed a forbidden edge
+		arm  bool // respond mode: the trigger has been passed and no response since
 	}
 	factKey := func(eqc, nec map[string]string) string {
 		if len(eqc) == 0 && len(nec) == 0 {
@@ -643,12 +665,16 @@ func (c *Checker) searchMode(target *ssa.BasicBlock, atoms []Atom, avoid bool) (
 	}
 	entry := c.Fn.Blocks[0]
 	start := &node{b: entry, val: valuation{}, eqc: map[string]string{}, nec: map[string]string{}}
+	respond := c.through != nil
+	if respond && entry == c.through {
+		start.arm = true
+	}
 	seen := map[pstate]bool{{entry, start.val.key(order)}: true}
 	q := []*node{start}
 	for len(q) > 0 {
 		n := q[0]
 		q = q[1:]
-		if n.b == target && (!avoid || n.bad) {
+		if (!respond && n.b == target && (!avoid || n.bad)) || (respond && n.arm && c.targets[n.b]) {
 			var rev []*ssa.BasicBlock
 			for x := n; x != nil; x = x.prev {
 				rev = append(rev, x.b)
@@ -665,11 +691,23 @@ func (c *Checker) searchMode(target *ssa.BasicBlock, atoms []Atom, avoid bool) (
 		for si, s := range n.b.Succs {
 			e := cfgx.Edge{From: n.b, To: s}
 			nbad := n.bad
+			narm := n.arm
 			if cut[e] {
-				if !avoid {
+				if respond {
+					narm = false // a response edge discharges the obligation
+				} else if !avoid {
 					continue
+				} else {
+					nbad = true
 				}
-				nbad = true
+			}
+			if respond {
+				if c.avoidB[s] {
+					narm = false
+				}
+				if s == c.through && !c.avoidB[s] {
+					narm = true
+				}
 			}
 			nv := valuation{}
 			for k, x := range n.val {
@@ -805,12 +843,15 @@ func (c *Checker) searchMode(target *ssa.BasicBlock, atoms []Atom, avoid bool) (
 			if nbad {
 				bk = "!"
 			}
+			if narm {
+				bk += "^"
+			}
 			ps := pstate{s, nv.key(order) + "#" + factKey(neq, nne) + bk}
 			if seen[ps] {
 				continue
 			}
 			seen[ps] = true
-			q = append(q, &node{b: s, val: nv, eqc: neq, nec: nne, prev: n, bad: nbad})
+			q = append(q, &node{b: s, val: nv, eqc: neq, nec: nne, prev: n, bad: nbad, arm: narm})
 		}
 	}
 	return true, nil, false
